@@ -39,30 +39,39 @@ Fixpoint chain (g : netlist) (t : net) (p : list net) : Prop :=
   | x :: r => edge g x t /\ chain g x r
   end.
 
+Lemma last_indep {A} : forall (l : list A) d d', l <> [] -> last l d = last l d'.
+Proof.
+  induction l as [|x r IH]; intros d d' H; [congruence|].
+  destruct r as [|y r']; [reflexivity|]. simpl in *. apply IH. discriminate.
+Qed.
+
+Lemma last_cons {A} (x : A) r d : last (x :: r) d = last r x.
+Proof. destruct r as [|y r']; [reflexivity|]. change (last (x :: y :: r') d) with (last (y :: r') d). apply last_indep. discriminate. Qed.
+
 Lemma chain_app g : forall p t n, chain g t (p ++ [n]) <-> chain g t p /\ edge g n (last p t).
 Proof.
-  induction p as [|x r IH]; intros t n; simpl.
-  - tauto.
-  - rewrite IH. destruct r; simpl; tauto.
+  induction p as [|x r IH]; intros t n.
+  - simpl. tauto.
+  - rewrite last_cons. simpl. rewrite IH. tauto.
 Qed.
 
 Lemma last_app_one {A} (p : list A) (n d : A) : last (p ++ [n]) d = n.
 Proof. induction p as [|x r IH]; simpl; [reflexivity|]. destruct (r ++ [n]) eqn:E; [destruct r; discriminate|]. exact IH. Qed.
 
+Lemma reach_snoc g a b c : reach g a b -> edge g b c -> reach g a c.
+Proof.
+  intros R E. induction R.
+  - eapply reach_step; [eassumption|]. now apply reach_one.
+  - eapply reach_step; [eassumption|]. now apply IHR.
+Qed.
+
 Lemma chain_reach g : forall p t, chain g t p -> p <> [] -> reach g (last p t) t.
 Proof.
   induction p as [|x r IH]; intros t Hc Hne; [congruence|].
-  simpl in Hc. destruct Hc as [He Hc].
+  simpl in Hc. destruct Hc as [He Hc]. rewrite last_cons.
   destruct r as [|y r'].
   - simpl. now apply reach_one.
-  - change (last (x :: y :: r') t) with (last (y :: r') t).
-    assert (Hl : forall d, last (y :: r') d = last (y :: r') x).
-    { clear. generalize y. induction r' as [|z r'' IH]; intros y0 d; simpl; [reflexivity|]. apply IH. }
-    rewrite (Hl t).
-    assert (R : reach g (last (y :: r') x) x) by (apply IH; [assumption|discriminate]).
-    clear -R He. induction R.
-    + eapply reach_step; [eassumption|]. now apply reach_one.
-    + eapply reach_step; [eassumption|]. now apply IHR.
+  - eapply reach_snoc; [|eassumption]. apply IH; [assumption|discriminate].
 Qed.
 
 (* what a result of traverse / trav_loop means *)
@@ -227,17 +236,361 @@ Qed.
 
 Lemma top_loop_complete g fuel : forall rs st,
   top_loop g fuel rs st = VAccept -> topo g (checked st) ->
-  exists st', topo g (checked st') /\ (forall r, In r rs -> In r (checked st')).
+  exists st', topo g (checked st') /\ (forall r, In r rs -> In r (checked st')) /\ incl (checked st) (checked st').
 Proof.
   induction rs as [|r rs IH]; intros st H T; simpl in H.
-  - exists st. split; [assumption|intros ? []].
+  - exists st. repeat split; [assumption|intros ? []|apply incl_refl].
   - pose proof (traverse_none g fuel r st) as Hr.
     destruct (traverse g fuel r st) as [st1 [c|]|p|]; try discriminate.
     simpl in Hr. destruct (Hr T) as [T1 [I1 S1]].
-    destruct (IH st1 H T1) as [st' [T' I']].
-    exists st'. split; [assumption|]. intros x [<-|Hx]; [|now apply I'].
-    (* checked only grows *)
-    clear -I1 H T1 IH. revert st1 I1 H T1. induction rs as [|r' rs IH']; intros st1 I1 H T1; simpl in H.
-    + admit.
-    + admit.
-Admitted.
+    destruct (IH st1 H T1) as [st' [T' [I' S']]].
+    exists st'. repeat split; [assumption| |eapply incl_tran; eassumption].
+    intros x [<-|Hx]; [now apply S'|now apply I'].
+Qed.
+
+Lemma const_no_succ g n : is_const n = true -> forall m, ~ edge g n m.
+Proof. intros H m. unfold edge, succs. rewrite H. intros []. Qed.
+
+Lemma reach_first g n m : reach g n m -> exists k, edge g n k.
+Proof. destruct 1; eauto. Qed.
+
+Theorem dfs_complete g :
+  check_cycles g = VAccept -> forall n, In n (all_nets g) -> ~ reach g n n.
+Proof.
+  unfold check_cycles. intros H n Hn R.
+  destruct (top_loop_complete g _ _ _ H (topo_nil g)) as [st' [T [I _]]].
+  destruct Hn as [<-|[<-|Hn]].
+  - destruct (reach_first _ _ _ R) as [k Hk]. now apply (const_no_succ g (NC 0 0)) in Hk.
+  - destruct (reach_first _ _ _ R) as [k Hk]. now apply (const_no_succ g (NC 0 1)) in Hk.
+  - exact (topo_acyclic g _ T n (I n Hn) R).
+Qed.
+
+(* ---------- the fuel |nets| + 1 is enough ---------- *)
+Definition seen (st : dfs) : list net := checked st ++ busy st.
+Definition mu (g : netlist) (st : dfs) : nat :=
+  length (filter (fun x => negb (nmem x (seen st))) (all_nets g)).
+
+Lemma filter_len_le {A} (p q : A -> bool) : forall L,
+  (forall x, In x L -> q x = true -> p x = true) -> length (filter q L) <= length (filter p L).
+Proof.
+  induction L as [|x L IH]; intros H; simpl; [lia|].
+  assert (IH' : length (filter q L) <= length (filter p L)) by (apply IH; intros; apply H; [now right|assumption]).
+  destruct (q x) eqn:Q.
+  - rewrite (H x (or_introl eq_refl) Q). simpl. lia.
+  - destruct (p x); simpl; lia.
+Qed.
+
+Lemma filter_len_lt {A} (p q : A -> bool) : forall L x,
+  (forall y, In y L -> q y = true -> p y = true) -> In x L -> p x = true -> q x = false ->
+  length (filter q L) < length (filter p L).
+Proof.
+  induction L as [|y L IH]; intros x H Hin Px Qx; [destruct Hin|]. simpl.
+  assert (Hle : length (filter q L) <= length (filter p L))
+    by (apply filter_len_le; intros; apply H; [now right|assumption]).
+  destruct Hin as [->|Hin].
+  - rewrite Px, Qx. simpl. lia.
+  - assert (IH' : length (filter q L) < length (filter p L))
+      by (eapply IH; try eassumption; intros; apply H; [now right|assumption]).
+    destruct (q y) eqn:Q.
+    + rewrite (H y (or_introl eq_refl) Q). simpl. lia.
+    + destruct (p y); simpl; lia.
+Qed.
+
+Lemma mu_le g a b : incl (seen a) (seen b) -> mu g b <= mu g a.
+Proof.
+  intro H. apply filter_len_le. intros x _ Hx. apply negb_true_iff in Hx. apply negb_true_iff.
+  apply nmem_false. apply nmem_false in Hx. intro Hin. apply Hx. now apply H.
+Qed.
+
+Lemma mu_lt g a b n : incl (seen a) (seen b) -> In n (all_nets g) -> ~ In n (seen a) -> In n (seen b) ->
+  mu g b < mu g a.
+Proof.
+  intros H Hn Ha Hb. eapply filter_len_lt with (x := n); try assumption.
+  - intros x _ Hx. apply negb_true_iff in Hx. apply negb_true_iff.
+    apply nmem_false. apply nmem_false in Hx. intro Hin. apply Hx. now apply H.
+  - apply negb_true_iff. now apply nmem_false.
+  - apply negb_false_iff. now apply nmem_In.
+Qed.
+
+Lemma remove_net_In x y l : In x (remove_net y l) <-> In x l /\ x <> y.
+Proof.
+  unfold remove_net. rewrite filter_In. split; intros [H1 H2]; split; try assumption.
+  - intro E. subst. apply negb_true_iff in H2. assert (net_eqb y y = true) by now apply net_eqb_eq. congruence.
+  - apply negb_true_iff. destruct (net_eqb x y) eqn:E; [|reflexivity]. apply net_eqb_eq in E. contradiction.
+Qed.
+
+Lemma fold_remove_In x : forall ex l, In x (fold_left (fun b e => remove_net e b) ex l) <-> In x l /\ ~ In x ex.
+Proof.
+  induction ex as [|e ex IH]; intros l; simpl; [tauto|].
+  rewrite IH, remove_net_In. split.
+  - intros [[H1 H2] H3]. split; [assumption|]. intros [E|E]; [now subst|contradiction].
+  - intros [H1 H2]. repeat split; [assumption| |]; intro; apply H2; [left; congruence|now right].
+Qed.
+
+Definition mono_res (st : dfs) (r : tres) : Prop :=
+  match r with TOk st' _ => incl (seen st) (seen st') | _ => True end.
+
+Lemma trav_loop_mono trav n :
+  (forall s st, mono_res st (trav s st)) -> forall ss st, mono_res st (trav_loop trav n ss st).
+Proof.
+  intros Ht. induction ss as [|s ss IH]; intros st; simpl; [apply incl_refl|].
+  pose proof (Ht s st) as H. destruct (trav s st) as [st1 [[s0 p]|]|p|]; simpl in *; try exact I; try assumption.
+  pose proof (IH st1) as H1. destruct (trav_loop trav n ss st1); simpl in *; try exact I.
+  eapply incl_tran; eassumption.
+Qed.
+
+Lemma finish_seen n ex st2 x :
+  In x (seen st2) ->
+  In x (seen (Dfs (rev ex ++ n :: checked st2) (fold_left (fun b e => remove_net e b) ex (remove_net n (busy st2))))).
+Proof.
+  unfold seen. simpl. intro H. apply in_app_or in H. apply in_or_app.
+  destruct H as [H|H].
+  - left. apply in_or_app. right. now right.
+  - destruct (nmem x (n :: ex)) eqn:E.
+    + apply nmem_In in E. left. apply in_or_app. destruct E as [<-|E]; [right; now left|left; now apply in_rev in E].
+    + apply nmem_false in E. right. apply fold_remove_In. split; [apply remove_net_In; split; [assumption|]|].
+      * intro; apply E; left; congruence.
+      * intro; apply E; now right.
+Qed.
+
+Lemma traverse_mono g : forall fuel n st, mono_res st (traverse g fuel n st).
+Proof.
+  induction fuel as [|fuel IH]; intros n st; simpl; [exact I|].
+  destruct (nmem n (checked st)); [apply incl_refl|].
+  destruct (nmem n (busy st)); [apply incl_refl|].
+  pose proof (trav_loop_mono (traverse g fuel) n IH (succs g n) (Dfs (checked st) (extras g n ++ n :: busy st))) as H.
+  destruct (trav_loop _ _ _ _) as [st2 [[s0 p]|]|p|]; simpl in *; try exact I.
+  - destruct (net_eqb s0 n); [exact I|]. simpl. intros x Hx. apply finish_seen. apply H.
+    unfold seen in *. simpl. apply in_app_or in Hx. apply in_or_app. destruct Hx; [now left|right].
+    apply in_or_app. right. now right.
+  - intros x Hx. apply finish_seen. apply H.
+    unfold seen in *. simpl. apply in_app_or in Hx. apply in_or_app. destruct Hx; [now left|right].
+    apply in_or_app. right. now right.
+Qed.
+
+Definition closed_nets (g : netlist) : Prop :=
+  forall n m, In n (all_nets g) -> edge g n m -> In m (all_nets g).
+
+Lemma wf_netlist_closed g : wf_netlist g = true -> closed_nets g.
+Proof.
+  unfold wf_netlist, closed_nets, edge. rewrite forallb_forall. intros H n m Hn Hm.
+  specialize (H n Hn). rewrite forallb_forall in H. now apply nmem_In, H.
+Qed.
+
+Lemma trav_loop_fuel g trav n bound :
+  (forall s st, mono_res st (trav s st)) ->
+  (forall s st, In s (all_nets g) -> mu g st <= bound -> trav s st <> TFuel) ->
+  forall ss st, (forall s, In s ss -> In s (all_nets g)) -> mu g st <= bound ->
+  trav_loop trav n ss st <> TFuel.
+Proof.
+  intros Hm Hf. induction ss as [|s ss IH]; intros st Hss Hb; simpl; [discriminate|].
+  pose proof (Hf s st (Hss s (or_introl eq_refl)) Hb) as H1.
+  pose proof (Hm s st) as H2.
+  destruct (trav s st) as [st1 [[s0 p]|]|p|]; try discriminate; [|congruence].
+  apply IH; [intros; apply Hss; now right|]. simpl in H2. pose proof (mu_le g st st1 H2). lia.
+Qed.
+
+Lemma traverse_fuel g : closed_nets g -> forall fuel n st,
+  In n (all_nets g) -> mu g st < fuel -> traverse g fuel n st <> TFuel.
+Proof.
+  intros Hc. induction fuel as [|fuel IH]; intros n st Hn Hmu; [lia|]. simpl.
+  destruct (nmem n (checked st)) eqn:Ck; [discriminate|].
+  destruct (nmem n (busy st)) eqn:Bk; [discriminate|].
+  set (st1 := Dfs (checked st) (extras g n ++ n :: busy st)).
+  assert (Hlt : mu g st1 < mu g st).
+  { apply mu_lt with (n := n); try assumption.
+    - unfold seen, st1. simpl. intros x Hx. apply in_app_or in Hx. apply in_or_app.
+      destruct Hx; [now left|right]. apply in_or_app. right. now right.
+    - unfold seen. intro Hx. apply in_app_or in Hx. apply nmem_false in Ck, Bk. tauto.
+    - unfold seen, st1. simpl. apply in_or_app. right. apply in_or_app. right. now left. }
+  assert (HL : trav_loop (traverse g fuel) n (succs g n) st1 <> TFuel).
+  { apply trav_loop_fuel with (g := g) (bound := mu g st1).
+    - apply traverse_mono.
+    - intros s st' Hs Hb. apply IH; [assumption|lia].
+    - intros s Hs. eapply Hc; eassumption.
+    - lia. }
+  destruct (trav_loop _ _ _ _) as [st2 [[s0 p]|]|p|]; try discriminate; [|congruence].
+  destruct (net_eqb s0 n); discriminate.
+Qed.
+
+Lemma top_loop_fuel g fuel : closed_nets g -> length (all_nets g) < fuel ->
+  forall rs st, (forall r, In r rs -> In r (all_nets g)) -> top_loop g fuel rs st <> VFuel.
+Proof.
+  intros Hc Hf. induction rs as [|r rs IH]; intros st Hrs; simpl; [discriminate|].
+  assert (H : traverse g fuel r st <> TFuel).
+  { apply traverse_fuel; [assumption|apply Hrs; now left|].
+    unfold mu. pose proof (filter_len_le (fun _ => true) (fun x => negb (nmem x (seen st))) (all_nets g) (fun _ _ _ => eq_refl)).
+    assert (E : filter (fun _ : net => true) (all_nets g) = all_nets g).
+    { clear. induction (all_nets g); simpl; congruence. }
+    rewrite E in H. lia. }
+  destruct (traverse g fuel r st) as [st1 [c|]|p|]; try discriminate; [|congruence].
+  apply IH. intros; apply Hrs; now right.
+Qed.
+
+Theorem dfs_fuel g : wf_netlist g = true -> check_cycles g <> VFuel.
+Proof.
+  intro W. unfold check_cycles. apply top_loop_fuel.
+  - now apply wf_netlist_closed.
+  - lia.
+  - intros r Hr. right. right. exact Hr.
+Qed.
+
+(* every netlist with a cycle through one of its nets is rejected — by CombinationalCycle or by the bare
+   AssertionError of `assert traverse(net) is None` *)
+Theorem dfs_rejects_cycles g n :
+  wf_netlist g = true -> In n (all_nets g) -> reach g n n ->
+  (exists p, check_cycles g = VCycle p) \/ check_cycles g = VAssert.
+Proof.
+  intros W Hn R. pose proof (dfs_fuel g W) as F. pose proof (dfs_complete g) as C.
+  destruct (check_cycles g) as [|p| |]; [exfalso; exact (C eq_refl n Hn R)|left; eauto|now right|congruence].
+Qed.
+
+(* ---------- per-bit precision of the edge relation ---------- *)
+Lemma vl_ext v1 v2 l i : (forall n, In n (nth_l l i) -> v1 n = v2 n) -> vl v1 l i = vl v2 l i.
+Proof.
+  unfold vl, nth_l. destruct (nth_error l i); [|reflexivity]. intro H. apply H. now left.
+Qed.
+
+Theorem per_bit_precise c bit v1 v2 :
+  per_bit c = true -> (forall n, In n (comb_edges c bit) -> v1 n = v2 n) ->
+  cell_bit v1 c bit = cell_bit v2 c bit.
+Proof.
+  destruct c; simpl; try discriminate.
+  - (* operator *)
+    destruct ins as [|a [|b [|d [|e r]]]]; try discriminate.
+    + destruct k; try discriminate. intros _ H. f_equal. now apply vl_ext.
+    + intros Hk H. rewrite Hk in H.
+      assert (Ha : vl v1 a bit = vl v2 a bit) by (apply vl_ext; intros; apply H; apply in_or_app; now left).
+      assert (Hb : vl v1 b bit = vl v2 b bit) by (apply vl_ext; intros; apply H; apply in_or_app; now right).
+      destruct k; try discriminate; now rewrite Ha, Hb.
+    + intros _ H.
+      assert (Hs : vl v1 a 0 = vl v2 a 0) by (apply vl_ext; intros; apply H; apply in_or_app; now left).
+      assert (Hb : vl v1 b bit = vl v2 b bit)
+        by (apply vl_ext; intros; apply H; apply in_or_app; right; apply in_or_app; now left).
+      assert (Hd : vl v1 d bit = vl v2 d bit)
+        by (apply vl_ext; intros; apply H; apply in_or_app; right; apply in_or_app; now right).
+      destruct k; now rewrite Hs, Hb, Hd.
+  - (* assignment list *)
+    intros _ H.
+    assert (Hd : vl v1 default bit = vl v2 default bit) by (apply vl_ext; intros; apply H; apply in_or_app; now left).
+    assert (Ha : forall n, In n (flat_map (fun a => let '(cond, start, value) := a in
+                         if (start <=? bit) && (bit <? start + length value)
+                         then cond :: nth_l value (bit - start) else []) assigns) -> v1 n = v2 n)
+      by (intros; apply H; apply in_or_app; now right).
+    clear H. revert Hd Ha. generalize (vl v1 default bit) (vl v2 default bit).
+    induction assigns as [|[[cond start] value] r IH]; intros x y Hd Ha; simpl; [assumption|].
+    apply IH.
+    + simpl in Ha. destruct ((start <=? bit) && (bit <? start + length value)) eqn:E; simpl; [|assumption].
+      assert (Hc : v1 cond = v2 cond) by (apply Ha; apply in_or_app; left; now left).
+      rewrite Hc. destruct (v2 cond); [|assumption].
+      apply vl_ext. intros; apply Ha. apply in_or_app. left. now right.
+    + intros n Hn. apply Ha. simpl. apply in_or_app. now right.
+  - (* IO buffer *)
+    intros _ H. destruct is_input; [reflexivity|].
+    assert (Ho : vl v1 o bit = vl v2 o bit) by (apply vl_ext; intros; apply H; apply in_or_app; now left).
+    assert (He : v1 oe = v2 oe) by (apply H; apply in_or_app; right; now left).
+    now rewrite Ho, He.
+Qed.
+
+(* ================================================================================================ *)
+(* Part I — drivers                                                                                 *)
+(* ================================================================================================ *)
+
+(* ---------- the systematic family of the harness, inside Coq ---------- *)
+Definition ranges4 : list (nat * nat) :=
+  [(0,1);(0,2);(0,3);(0,4);(1,2);(1,3);(1,4);(2,3);(2,4);(3,4)].
+(* every target form on a range of the 4-bit signal 0; `dm` is a private dummy signal *)
+Definition forms_of (dm : nat) (r : nat * nat) : list tgt :=
+  let '(lo, hi) := r in
+  let s := TSig 0 4 in
+  let sl := TSlice s lo hi in
+  let L := hi - lo in
+  [ sl;
+    TPart sl 1 (if 2 <=? L then L - 1 else 1) 1;
+    (if 2 <=? L then TCat [TSlice s lo (S lo); TSlice s (S lo) hi] else TCat [sl; TSlice (TSig dm 2) 0 1]);
+    TSwitch L [sl; TSlice (TSig dm 4) 0 L];
+    TCast sl ].
+Definition whole_parts : list tgt :=
+  let s := TSig 0 4 in [TPart s 1 2 2; TPart s 1 1 1; TPart s 1 2 1; TPart s 2 1 1; TPart s 1 3 1].
+Definition targets_of (dm : nat) : list tgt := flat_map (forms_of dm) ranges4 ++ whole_parts.
+
+(* a source placed in the 3-node tree: statement (module 0..2, domain) or an output hanging under a module *)
+Inductive placed := PStmt (m dm : nat) (t : tgt) | POutAt (m : nat) (t : tgt).
+Definition stmts_at (m : nat) (ps : list placed) : list (nat * tgt) :=
+  flat_map (fun p => match p with PStmt m' dm t => if Nat.eqb m m' then [(dm, t)] else [] | _ => [] end) ps.
+Definition outs_at (m : nat) (ps : list placed) : list frag :=
+  flat_map (fun p => match p with POutAt m' t => if Nat.eqb m m' then [FOut [t]] else [] | _ => [] end) ps.
+Definition tree (fan : bool) (ps : list placed) : frag :=
+  let m2 := FMod (stmts_at 2 ps) (outs_at 2 ps) in
+  if fan then FMod (stmts_at 0 ps) ([FMod (stmts_at 1 ps) (outs_at 1 ps); m2] ++ outs_at 0 ps)
+  else FMod (stmts_at 0 ps) ([FMod (stmts_at 1 ps) (m2 :: outs_at 1 ps)] ++ outs_at 0 ps).
+
+Definition placements (dm : nat) : list placed :=
+  flat_map (fun t => flat_map (fun m => map (fun d => PStmt m d t) [0; 1; 2]) [0; 1; 2]) (targets_of dm)
+  ++ flat_map (fun r => map (fun m => POutAt m (TSlice (TSig 0 4) (fst r) (snd r))) [0; 1; 2]) ranges4.
+
+Definition agree (d : design) : bool :=
+  Bool.eqb (match driver_table d with Some _ => true | None => false end) (conflictb d).
+
+Definition pair_family_ok (fan : bool) (ports : list (nat * nat * pdir)) : bool :=
+  forallb (fun p => forallb (fun q => agree (Design (tree fan [p; q]) ports)) (placements 2)) (placements 1).
+
+Definition sl4 (r : nat * nat) : tgt := TSlice (TSig 0 4) (fst r) (snd r).
+Definition placements_a : list placed :=
+  flat_map (fun r => [PStmt 0 0 (sl4 r); PStmt 0 1 (sl4 r); PStmt 1 0 (sl4 r)]) ranges4
+  ++ map (PStmt 0 0) whole_parts
+  ++ map (fun r => POutAt 1 (sl4 r)) ranges4.
+Definition placements_b : list placed :=
+  flat_map (fun r => [PStmt 1 0 (sl4 r); PStmt 2 1 (sl4 r)]) ranges4
+  ++ map (fun r => POutAt 2 (sl4 r)) ranges4.
+
+Definition family (fan : bool) (ps : list placed) (ports : list (nat * nat * pdir)) : list design :=
+  flat_map (fun p => map (fun q => Design (tree fan [p; q]) ports) (placements 2)) ps.
+Definition family_ports : list design :=
+  flat_map (fun p => map (fun dir => Design (tree true [p]) [(0, 4, dir)]) [PNone; PIn; POut]) (placements 1).
+
+Lemma family_fan_ok : forallb agree (family true placements_a []) = true.
+Proof. vm_cast_no_check (eq_refl true). Qed.
+Lemma family_chain_ok : forallb agree (family false placements_b []) = true.
+Proof. vm_cast_no_check (eq_refl true). Qed.
+Lemma family_ports_ok : forallb agree family_ports = true.
+Proof. vm_cast_no_check (eq_refl true). Qed.
+
+Theorem driver_check_iff_family d :
+  In d (family true placements_a [] ++ family false placements_b [] ++ family_ports) ->
+  (driver_table d <> None <-> conflictb d = true).
+Proof.
+  intro H.
+  assert (A : agree d = true).
+  { apply in_app_or in H. destruct H as [H|H]; [exact (proj1 (forallb_forall _ _) family_fan_ok d H)|].
+    apply in_app_or in H. destruct H as [H|H];
+      [exact (proj1 (forallb_forall _ _) family_chain_ok d H) | exact (proj1 (forallb_forall _ _) family_ports_ok d H)]. }
+  unfold agree in A. apply Bool.eqb_prop in A. rewrite <- A.
+  destruct (driver_table d); split; intro; congruence.
+Qed.
+
+(* the early DSL check over-approximates part-selects (S2): rejected although no bit has two sources *)
+Definition s2_stmts : list (nat * tgt) := [(0, TPart (TSig 0 8) 1 2 2); (1, TSlice (TSig 0 8) 4 8)].
+Lemma early_conflict_refuted :
+  early_conflict s2_stmts = Some (0, 4) /\ conflictb (Design (FMod s2_stmts []) []) = false
+  /\ driver_table (Design (FMod [] [FMod [(0, TPart (TSig 0 8) 1 2 2)] []; FMod [(1, TSlice (TSig 0 8) 4 8)] []]) []) = None.
+Proof. vm_compute. repeat split. Qed.
+
+(* a zero-width target makes a driver with no bits; as the sole driver it is widened to the whole signal *)
+Lemma zero_width_refuted :
+  let d := Design (FMod [(0, TSlice (TSig 0 4) 1 1)] []) [(0, 4, PIn)] in
+  driver_table d = Some (ErrConnect 0 0) /\ conflictb d = false.
+Proof. vm_compute. split; reflexivity. Qed.
+
+(* m.d.comb += a.eq(a[1] + 1), a 2 bits wide: the DFS enters the adder by output 0 and closes on output 1 *)
+Definition g_assert : netlist :=
+  Netlist [CTop []; COperator KOther 2 [[NL 1; NC 0 0]; [NC 0 1; NC 0 0]]]
+          [(2, NC 1 0); (1, NC 1 1)] [[NL 2; NL 1]].
+Lemma dfs_cycle_error_refuted :
+  wf_netlist g_assert = true /\ reach g_assert (NL 1) (NL 1) /\ In (NL 1) (all_nets g_assert)
+  /\ check_cycles g_assert = VAssert.
+Proof.
+  repeat split; try (vm_compute; reflexivity).
+  - eapply reach_step with (k := NC 1 1); [vm_compute; now left|]. apply reach_one. vm_compute. now left.
+  - vm_compute. tauto.
+Qed.
